@@ -382,6 +382,44 @@ class Joiner:
                                 extra_f.append(f_)
                     if extra_f:
                         d = Delta(d.iv, tuple(d.facts) + tuple(f_ for f_ in extra_f if f_ not in d.facts), d.gen, d.ef)
+                    # a bound of a scalar payload against a symbol both sides share, which neither side *states* about
+                    # the payload but each entails for its own source value (`Some(i)` joined from `Ok(i) => Some(i)`
+                    # with i < len and `Err(i) => Some(i - 1)` with i <= len): candidates payload - t + c <= 0, c in {1, 0}
+                    try:
+                        phimap = {p_: (a_, b_) for p_, a_, b_ in self.phis}
+                        newf = []
+                        sides = []
+                        for X, xw, cx in ((A, ea.when.get(k), cxa), (B, eb.when.get(k), cxb)):
+                            Xc = X.copy()
+                            dx = _merge_deltas(tuple(cx) + ((xw,) if xw is not None else ()))
+                            if dx is not None:
+                                Xc.apply_delta(dx)
+                            sides.append(Xc)
+                        XA, XB = sides
+                        if not XA.dead and not XB.dead:
+                            stale_ = self.stale_a | self.stale_b
+                            for x_ in [v_ for v_ in e.variants[k] if isinstance(v_, Scalar)][:2]:
+                                if x_.sym not in phimap or J.st.range(x_.sym) == (0, 1):
+                                    continue
+                                a_, b_ = phimap[x_.sym]
+                                cands = set()
+                                for X, s_ in ((XA, a_), (XB, b_)):
+                                    base = set(X.term(s_).t) | {s_}
+                                    for f_ in X.facts:
+                                        if base & set(f_.t):
+                                            cands.update(f_.t)
+                                cands = [t_ for t_ in cands if t_ not in phimap and t_ not in stale_ and not isinstance(t_, tuple) and t_ not in (a_, b_) and XA.term(t_) == Lin.var(t_) and XB.term(t_) == Lin.var(t_)]
+                                for t_ in sorted(cands)[:6]:
+                                    for c_ in (1, 0):
+                                        ga = XA.term(a_).sub(Lin.var(t_)).addc(c_)
+                                        gb = XB.term(b_).sub(Lin.var(t_)).addc(c_)
+                                        if XA.entails(ga) and XB.entails(gb):
+                                            newf.append(Lin({x_.sym: 1}).sub(Lin.var(t_)).addc(c_))
+                                            break
+                        if newf:
+                            d = Delta(d.iv, tuple(d.facts) + tuple(f_ for f_ in newf if f_ not in d.facts), d.gen, d.ef)
+                    except Exception:
+                        pass
                 if d is not None and (d.iv or d.facts or d.ef):
                     when[k] = d
             e.when = when
